@@ -99,6 +99,13 @@ def c16a(ctx):
         def lim(a):
             # closed form of the limit (it may be held in a local, unpacked from the grid size or indexed)
             r = tab.atom_objs[a].right
+            for at in (lambda: fn.cfg.node_for(r), lambda: fn.cfg.node_of[id(inner[0])]):
+                try:
+                    t = fn.ctext(r, at=at())         # (where the limit is compared: it may be unpacked inside the loop)
+                except Exception:       # noqa
+                    continue
+                if t.startswith('grid_size['):
+                    return t
             return fn.ctext(r, at=fn.cfg.node_of[id(inner[0])])
         lims_ok = lim(axl[0]) == 'grid_size[0]' and lim(ayl[0]) == 'grid_size[1]'
         for asg, out, _ in tab.assignments():
@@ -333,10 +340,12 @@ def c16d(ctx):
             ctx.check(ok, '%s.%s:none-inert' % (cname, m), '%s touches no storage for a tile without coordinate' % m, f,
                       fail='%s.%s can reach storage I/O (%s) for a tile whose coordinate is None' % (cname, m, [call_name(x) for n, x in io][:3]))
     im = ctx.fn('mapproxy/cache/tile.py:Tile.is_missing')
-    rets = returns_of(im.node)
-    ok = bool(rets) and all(contains(r.value, lambda x: isinstance(x, ast.Compare) and 'coord' in unparse(x) and isinstance(x.ops[0], ast.IsNot)) or
-                            'coord is not None' in unparse(r.value) for r in rets)
-    ok = ok or any(isinstance(s, ast.If) and 'coord' in unparse(s.test) for s in im.walk())
+    # truth table of the method over its conditions: whenever the coordinate is None the answer is False
+    tab = ctx.rows(table([s_ for s_ in im.node.body if not (isinstance(s_, ast.Expr) and isinstance(s_.value, ast.Constant))],
+                         ret_kind, bool_returns=True))
+    ca = [a for a in tab.atoms if a == 'None == self.coord']
+    ok = len(ca) == 1 and all(out == 'return False' for asg, out, ev in tab.assignments() if asg[ca[0]]) and \
+        any(out == 'return True' for asg, out, ev in tab.assignments())
     ctx.check(ok, 'Tile.is_missing:needs-coord', 'is_missing() is False for a tile without coordinate', im)
     # creators skip None
     for qn in ('mapproxy/cache/tile.py:TileCreator._create_meta_tile', 'mapproxy/cache/tile.py:TileCreator._create_bulk_meta_tile'):
